@@ -4,7 +4,6 @@ package c17
 // enumeration (see the `rule` evidence key and MUTANTS.md).
 
 import (
-	"encoding/json"
 	"fmt"
 	"os"
 	"runtime"
@@ -48,24 +47,6 @@ func forEach(n, workers int, deadline time.Time, fn func(worker, i int)) bool {
 	return !cut.Load()
 }
 
-// report forwards the first failure of every key to the runner (one replay file and one re-check per class).
-var reported sync.Map
-
-func report(r *runner.Run, fl *failure, replay any, recheck func() bool) {
-	if _, dup := reported.LoadOrStore(fl.Key, true); dup {
-		return
-	}
-	r.Violation(fl.Key, fl.Msg, replay, recheck)
-}
-
-// infraOnce reports an infrastructure problem once per class (not once per configuration).
-func infraOnce(r *runner.Run, class, format string, a ...any) {
-	if _, dup := reported.LoadOrStore("infra:"+class, true); dup {
-		return
-	}
-	r.Infra(format, a...)
-}
-
 // sampleBook keeps, per class, the example with the smallest enumeration index
 // (so the evidence samples do not depend on goroutine scheduling).
 type sampleBook struct {
@@ -106,68 +87,6 @@ func (b *tieBook) note(mode, dir string, example func() string) {
 	if _, ok := b.seen[mode][dir]; !ok {
 		b.seen[mode][dir] = example()
 	}
-}
-
-type replayDoc struct {
-	Part   string   `json:"part"`
-	Spec   *outSpec `json:"spec,omitempty"`
-	Shape  *shape   `json:"shape,omitempty"`
-	Clock  string   `json:"clock,omitempty"`
-	Set    []win    `json:"set,omitempty"`
-	InCase *inCase  `json:"in_case,omitempty"`
-	DSL    string   `json:"dsl,omitempty"`
-}
-
-func clockByLabel(label string) (instant, bool) {
-	for _, c := range clockInstants() {
-		if c.Label == label {
-			return c, true
-		}
-	}
-	return instant{}, false
-}
-
-const recheckWorker = 900 // its own scratch directory and environment variables, never used by an enumeration worker
-
-var recheckMu sync.Mutex
-
-// replayOut re-executes one outbound case from scratch; it returns the failure (or nil).
-func replayOut(spec outSpec, sh shape, clk instant) (*failure, error) {
-	recheckMu.Lock()
-	defer recheckMu.Unlock()
-	env, err := bootOut(spec.Windows, spec.Unload, recheckWorker, []variant{{spec.Sel, spec.Order}}, true)
-	if err != nil {
-		return nil, err
-	}
-	defer env.close()
-	_, _, fl, infra := env.evalCase(0, sh, clk)
-	return fl, infra
-}
-
-func replayIn(t *testing.T, set []win, c inCase) (*failure, error) {
-	recheckMu.Lock()
-	defer recheckMu.Unlock()
-	res, infra := runInboundSet(t, set, recheckWorker, []inCase{c})
-	if infra != nil || len(res) != 1 {
-		return nil, fmt.Errorf("replay: %v", infra)
-	}
-	return inFailure(set, res[0], secondInstants()), nil
-}
-
-func replayE2E(t *testing.T, spec outSpec, clk instant, route int) (*failure, error) {
-	recheckMu.Lock()
-	defer recheckMu.Unlock()
-	obs, infra := runE2E(t, spec.Windows, recheckWorker, []variant{{spec.Sel, spec.Order}}, []instant{clk})
-	if infra != nil {
-		return nil, infra
-	}
-	for _, o := range obs {
-		if o.Route == route {
-			_, _, _, fl := judgeE2E(spec, o)
-			return fl, nil
-		}
-	}
-	return nil, fmt.Errorf("replay: route not observed")
 }
 
 func TestCheck(t *testing.T) {
@@ -319,75 +238,79 @@ func outbound(r *runner.Run, deadline time.Time, workers int, ties *tieBook) boo
 		}
 		first := make([]int8, len(clocks)*len(full)) // pick of the first secret_ref order, per selection
 		var evals, sent, notSent, noValid, unloadable, tieCases, cachedSecret int64
-		for vi, v := range vars {
+		levels := make([]int, len(vars))
+		for vi := range vars {
+			levels[vi] = shapeLevel(r, n, u.Unload, vi%nPerm)
+			r.Add(fmt.Sprintf("out_configs_shape_level_%d", levels[vi]), 1)
+		}
+		abort := false
+		unitOrder(len(vars), levels, lists, clocks, func(vi, ci, si int, sh shape, clk instant) bool {
+			v := vars[vi]
 			permIdx := vi % nPerm
-			if permIdx == 0 {
+			if permIdx == 0 && ci == 0 && si == 0 {
 				for i := range first {
 					first[i] = unset
 				}
 			}
-			level := shapeLevel(r, n, u.Unload, permIdx)
-			shapes := lists[level]
 			spec := env.spec(vi)
-			for ci, clk := range clocks {
-				for si, sh := range shapes {
-					pick, tie, fl, infra := env.evalCase(vi, sh, clk)
-					evals++
-					if infra != nil {
-						infraOnce(r, "outbound-case", "outbound case: %v", infra)
-						return
-					}
-					if fl != nil {
-						sh, clk := sh, clk
-						report(r, fl, replayDoc{Part: "outbound", Spec: &spec, Shape: &sh, Clock: clk.Label}, func() bool {
-							f2, err := replayOut(spec, sh, clk)
-							return err == nil && f2 != nil && f2.Key == fl.Key
-						})
-					}
-					if tie != noTie {
-						tieCases++
-						ties.note(v.Sel, tie, func() string { return fmt.Sprintf("%s clock=%s", spec, clk.Label) })
-					}
-					switch {
-					case pick >= 0:
-						sent++
-						if pick == u.Unload {
-							cachedSecret++
-						}
-					case pick == pickNone:
-						notSent++
-						if len(refGroup(u.Windows, v.Sel, clk.At.UnixNano())) == 0 {
-							noValid++
-						} else {
-							unloadable++
-						}
-					}
-					idx := ci*len(full) + fullIdx[sh]
-					switch {
-					case pick == pickFailed:
-					case permIdx == 0:
-						first[idx] = int8(pick)
-					case first[idx] != unset && int(first[idx]) != pick:
-						sh, clk := sh, clk
-						report(r, &failure{"out:pick-depends-on-secret_ref-order", fmt.Sprintf("same versions, clock and rule, but listing order %v gives %s and listing order %v gives %s; %s clock=%s",
-							v.Order, pickName(pick), vars[vi-permIdx].Order, pickName(int(first[idx])), spec, clk.Label)}, replayDoc{Part: "outbound", Spec: &spec, Shape: &sh, Clock: clk.Label}, nil)
-					}
-					if permIdx == 0 && si == 0 {
-						r.Distinct(fmt.Sprintf("out|%s|%s|%s|u%d|%s", pattern(u.Windows), clk.Label, v.Sel, u.Unload, pickName(pick)))
-						if tie != noTie || pick == pickNone {
-							class := "out:signed-after-tie"
-							if pick == pickNone {
-								class = "out:not-sent"
-							}
-							samples.keep(class, ui*1000+vi*20+ci, func() any {
-								return map[string]any{"part": "outbound", "windows": pattern(u.Windows), "secret_ref_order": v.Order, "selection": v.Sel, "unloadable": u.Unload, "clock": clk.Label,
-									"url": targetOrigin + urlPaths[sh.Path].Raw, "verdict": pickName(pick)}
-							})
-						}
-					}
+			pick, tie, fl, infra := env.evalCase(vi, sh, clk)
+			evals++
+			if infra != nil {
+				infraOnce(r, "outbound-case", "outbound case: %v", infra)
+				abort = true
+				return false
+			}
+			if fl != nil {
+				report(r, fl, func() []repro { return outRepros(u.Windows, u.Unload, vars, levels, vi, ci, si, sh, clocks) })
+			}
+			if tie != noTie {
+				tieCases++
+				ties.note(v.Sel, tie, func() string { return fmt.Sprintf("%s clock=%s", spec, clk.Label) })
+			}
+			switch {
+			case pick >= 0:
+				sent++
+				if pick == u.Unload {
+					cachedSecret++
+				}
+			case pick == pickNone:
+				notSent++
+				if len(refGroup(u.Windows, v.Sel, clk.At.UnixNano())) == 0 {
+					noValid++
+				} else {
+					unloadable++
 				}
 			}
-			r.Add(fmt.Sprintf("out_configs_shape_level_%d", level), 1)
+			idx := ci*len(full) + fullIdx[sh]
+			switch {
+			case pick == pickFailed:
+			case permIdx == 0:
+				first[idx] = int8(pick)
+			case first[idx] != unset && int(first[idx]) != pick:
+				report(r, &failure{"out:pick-depends-on-secret_ref-order", fmt.Sprintf("same versions, clock and rule, but listing order %v gives %s and listing order %v gives %s; %s clock=%s",
+					v.Order, pickName(pick), vars[vi-permIdx].Order, pickName(int(first[idx])), spec, clk.Label)}, func() []repro {
+					un := u.Unload
+					return []repro{{doc: replayDoc{Part: "outbound", History: "relational finding: compare the two secret_ref orders (both are variants of this boot) at the step's clock and shape",
+						Windows: u.Windows, Unload: &un, Variants: []variant{vars[vi-permIdx], v}, Steps: []outStep{{V: 0, Shape: sh, Clock: clk.Label}, {V: 1, Shape: sh, Clock: clk.Label}}}}}
+				})
+			}
+			if permIdx == 0 && si == 0 {
+				r.Distinct(fmt.Sprintf("out|%s|%s|%s|u%d|%s", pattern(u.Windows), clk.Label, v.Sel, u.Unload, pickName(pick)))
+				if tie != noTie || pick == pickNone {
+					class := "out:signed-after-tie"
+					if pick == pickNone {
+						class = "out:not-sent"
+					}
+					samples.keep(class, ui*1000+vi*20+ci, func() any {
+						return map[string]any{"part": "outbound", "windows": pattern(u.Windows), "secret_ref_order": v.Order, "selection": v.Sel, "unloadable": u.Unload, "clock": clk.Label,
+							"url": targetOrigin + urlPaths[sh.Path].Raw, "verdict": pickName(pick)}
+					})
+				}
+			}
+			return true
+		})
+		if abort {
+			return
 		}
 		if p := env.rec.problems(); len(p) > 0 {
 			infraOnce(r, "recorder", "recording transport: %v", p)
@@ -427,7 +350,9 @@ func outboundFixed(r *runner.Run) bool {
 	}
 	defer env.close()
 	names := outRoutes[0].Expected
-	doc := func(clk instant) replayDoc { return replayDoc{Part: "fixed", Clock: clk.Label, DSL: env.dsl} }
+	doc := func(clk instant) replayDoc {
+		return replayDoc{Part: "fixed", History: "direct (window-less) signing targets, all clock instants in order on one deliverer", Clocks: []string{clk.Label}, DSL: env.dsl}
+	}
 	for _, clk := range clocks {
 		for m := range methods {
 			for b := range bodies {
@@ -442,11 +367,11 @@ func outboundFixed(r *runner.Run) bool {
 					unix := unixFloor(clk.At.UnixNano())
 					switch {
 					case len(got) != 1:
-						report(r, &failure{"out:direct-secret:not-sent-once", fmt.Sprintf("%d requests for a target with `sign hmac raw:...` at %s", len(got), clk.Label)}, doc(clk), nil)
+						report(r, &failure{"out:direct-secret:not-sent-once", fmt.Sprintf("%d requests for a target with `sign hmac raw:...` at %s", len(got), clk.Label)}, func() []repro { return []repro{{doc: doc(clk)}} })
 					case got[0].Header.Get(names.Ts) != fmt.Sprint(unix):
-						report(r, &failure{"out:direct-secret:timestamp-header", fmt.Sprintf("timestamp header %q, want %d", got[0].Header.Get(names.Ts), unix)}, doc(clk), nil)
+						report(r, &failure{"out:direct-secret:timestamp-header", fmt.Sprintf("timestamp header %q, want %d", got[0].Header.Get(names.Ts), unix)}, func() []repro { return []repro{{doc: doc(clk)}} })
 					case got[0].Header.Get(names.Sig) != refOutboundSig([]byte(directSecret), got[0].Method, got[0].path(), unix, got[0].Body):
-						report(r, &failure{"out:direct-secret:signature", fmt.Sprintf("signature header %q is not the reference HMAC over (%s,%s,%d,body)", got[0].Header.Get(names.Sig), got[0].Method, got[0].path(), unix)}, doc(clk), nil)
+						report(r, &failure{"out:direct-secret:signature", fmt.Sprintf("signature header %q is not the reference HMAC over (%s,%s,%d,body)", got[0].Header.Get(names.Sig), got[0].Method, got[0].path(), unix)}, func() []repro { return []repro{{doc: doc(clk)}} })
 					default:
 						r.Add("out_sent", 1)
 					}
@@ -456,7 +381,7 @@ func outboundFixed(r *runner.Run) bool {
 						return true
 					}
 					if len(got) != 0 {
-						report(r, &failure{"out:unloadable-direct-secret:sent", fmt.Sprintf("a request was sent for a target whose `sign hmac env:%s` cannot be loaded (clock %s)", neverSetEnv, clk.Label)}, doc(clk), nil)
+						report(r, &failure{"out:unloadable-direct-secret:sent", fmt.Sprintf("a request was sent for a target whose `sign hmac env:%s` cannot be loaded (clock %s)", neverSetEnv, clk.Label)}, func() []repro { return []repro{{doc: doc(clk)}} })
 					} else {
 						r.Add("out_not_sent", 1)
 						r.Add("out_not_sent_unloadable_secret", 1)
@@ -503,7 +428,7 @@ func inbound(t *testing.T, r *runner.Run, deadline time.Time, workers int) bool 
 			return
 		}
 		var acc, rej int64
-		for _, x := range res {
+		for xi, x := range res {
 			if x.Status == 202 {
 				acc++
 			} else {
@@ -514,11 +439,7 @@ func inbound(t *testing.T, r *runner.Run, deadline time.Time, workers int) bool 
 				return
 			}
 			if fl := inFailure(set, x, insts); fl != nil {
-				c := x.Case
-				report(r, fl, replayDoc{Part: "inbound", Set: set, InCase: &c}, func() bool {
-					f2, err := replayIn(t, set, c)
-					return err == nil && f2 != nil && f2.Key == fl.Key
-				})
+				report(r, fl, func() []repro { return inRepros(t, set, cases, xi) })
 			}
 			if x.Case.Signer >= 0 {
 				rel := "clock=ts"
@@ -578,10 +499,7 @@ func endToEnd(t *testing.T, r *runner.Run, deadline time.Time, workers int, ties
 			}
 			if fl != nil {
 				o := o
-				report(r, fl, replayDoc{Part: "e2e", Spec: &spec, Clock: o.Clock.Label, Shape: &shape{Route: o.Route}}, func() bool {
-					f2, err := replayE2E(t, spec, o.Clock, o.Route)
-					return err == nil && f2 != nil && f2.Key == fl.Key
-				})
+				report(r, fl, func() []repro { return e2eRepros(t, set, vars, clocks, o) })
 			}
 			if tie != noTie {
 				ties.note(spec.Sel, tie, func() string { return fmt.Sprintf("e2e %s clock=%s", spec, o.Clock.Label) })
@@ -610,63 +528,4 @@ func endToEnd(t *testing.T, r *runner.Run, deadline time.Time, workers int, ties
 		r.Add("e2e_messages_not_pushed", silent)
 		r.Add("e2e_bubbles", 1)
 	})
-}
-
-// ---- replay -----------------------------------------------------------------
-
-func runReplay(t *testing.T, r *runner.Run, path string) {
-	b, err := os.ReadFile(path)
-	if err != nil {
-		r.Infra("replay: %v", err)
-		return
-	}
-	var doc struct {
-		Key    string    `json:"key"`
-		Replay replayDoc `json:"replay"`
-	}
-	if err := json.Unmarshal(b, &doc); err != nil {
-		r.Infra("replay: %v", err)
-		return
-	}
-	d := doc.Replay
-	var fl *failure
-	switch d.Part {
-	case "outbound":
-		clk, ok := clockByLabel(d.Clock)
-		if !ok || d.Spec == nil || d.Shape == nil {
-			r.Infra("replay: incomplete outbound case")
-			return
-		}
-		fl, err = replayOut(*d.Spec, *d.Shape, clk)
-	case "inbound":
-		if d.InCase == nil {
-			r.Infra("replay: incomplete inbound case")
-			return
-		}
-		fl, err = replayIn(t, d.Set, *d.InCase)
-	case "e2e":
-		clk, ok := clockByLabel(d.Clock)
-		if !ok || d.Spec == nil || d.Shape == nil {
-			r.Infra("replay: incomplete e2e case")
-			return
-		}
-		fl, err = replayE2E(t, *d.Spec, clk, d.Shape.Route)
-	default:
-		r.Infra("replay: part %q has no single-case replay; run the check", d.Part)
-		return
-	}
-	if err != nil {
-		r.Infra("replay: %v", err)
-		return
-	}
-	r.Add("evaluations", 1)
-	r.Distinct("replay|" + d.Part)
-	r.Distinct("replay|" + doc.Key)
-	r.Sample(d)
-	r.Set("rule", "replay of one recorded case")
-	if fl != nil {
-		r.Violation(fl.Key, fl.Msg, d, nil)
-	} else {
-		fmt.Println("replay: the recorded case passes on this tree")
-	}
 }
